@@ -1,0 +1,30 @@
+//go:build verif
+
+// Package verifhook provides named perturbation points for the runtime
+// monitors in /verif. Without the "verif" build tag every function in this
+// package is an empty, inlinable no-op.
+package verifhook
+
+import "sync/atomic"
+
+// Enabled reports whether the hooks were compiled in.
+const Enabled = true
+
+var _cb atomic.Pointer[func(string)]
+
+// Point marks a named location between two critical sections. If a callback
+// is installed it is invoked with the name of the point.
+func Point(name string) {
+	if f := _cb.Load(); f != nil {
+		(*f)(name)
+	}
+}
+
+// Set installs (or, with nil, removes) the callback invoked by Point.
+func Set(f func(string)) {
+	if f == nil {
+		_cb.Store(nil)
+		return
+	}
+	_cb.Store(&f)
+}
